@@ -64,6 +64,38 @@ theorem lowest_is_least (f : Option Nat) :
     simp only [lowest, requested, levels, IOFlags.VERBOSE, IOFlags.VERY_VERBOSE,
       IOFlags.DEBUG, IOFlags.NORMAL, Option.getD, List.filter, h1, h2, h4] <;> simp
 
+/-- The facade: a write through an entry point of the I/O reaches the stream of the output it writes
+to iff THAT output is not quiet and ITS verbosity is at least the lowest requested level - whatever
+the settings of the other output are - and never reaches the other stream. -/
+theorem facade_gated_by_own_output (std err : OutCfg) (f : Option Nat) :
+    ((facadeWrite std err .std f).1 = true ↔ (std.quiet = false ∧ std.verbosity ≥ lowest f)) ∧
+    (facadeWrite std err .std f).2 = false ∧
+    ((facadeWrite std err .err f).2 = true ↔ (err.quiet = false ∧ err.verbosity ≥ lowest f)) ∧
+    (facadeWrite std err .err f).1 = false := by
+  refine ⟨?_, rfl, ?_, rfl⟩
+  · exact mayWrite_iff std.quiet std.verbosity f
+  · exact mayWrite_iff err.quiet err.verbosity f
+
+/-- The settings of the other output never matter to a write through the facade. -/
+theorem facade_other_irrelevant (std std' err err' : OutCfg) (f : Option Nat) :
+    facadeWrite std err .std f = facadeWrite std err' .std f ∧
+    facadeWrite std err .err f = facadeWrite std' err .err f := ⟨rfl, rfl⟩
+
+/-- Every writing entry point of the facade writes to one of the two outputs: the four
+`write*` to the standard output, the four `error*` to the error output. -/
+theorem facade_entry_points :
+    (["write", "write_line", "write_raw", "write_line_raw"].map facadeChan).all (· == some .std) = true ∧
+    (["error", "error_line", "error_raw", "error_line_raw"].map facadeChan).all (· == some .err) = true := by
+  decide
+
+/-- Non-vacuity: a quiet standard output next to a talking error output - `error` shows, `write`
+does not; and the other way round. -/
+example : facadeWrite ⟨true, 0⟩ ⟨false, 0⟩ .err none = (false, true) ∧
+    facadeWrite ⟨true, 0⟩ ⟨false, 0⟩ .std none = (false, false) ∧
+    facadeWrite ⟨false, 0⟩ ⟨true, 4⟩ .err none = (false, false) ∧
+    facadeWrite ⟨false, 0⟩ ⟨false, 4⟩ .err (some 4) = (false, true) ∧
+    facadeWrite ⟨false, 0⟩ ⟨false, 4⟩ .std (some 4) = (false, false) := by decide
+
 /-- Non-vacuity: a DEBUG|VERY_VERBOSE message is shown at VERY_VERBOSE, not at VERBOSE. -/
 example : mayWrite false 2 (some 6) = true ∧ mayWrite false 1 (some 6) = false ∧
     lowest (some 6) = 2 := by decide
